@@ -46,11 +46,11 @@ def g_peak(ctx, ec, cfg):
             continue
         ctx.count(("G", r, a, j, T))
         seen.append((T, r, a, j, st["peak"], st["rate1"], abs(st["rate"])))
-        m = ec.max_rate_t3(T, r, a, j)
+        m = S.call(ec.max_rate_t3, T, r, a, j)
         case = {"mode": "G", "T": T, "rate": r, "accel": a, "jerk": j}
         peak, r1, rT = st["peak"], st["rate1"], abs(st["rate"])
         if not S.is_int(m):
-            ctx.violation("peak.not_integer", case, "integer", repr(m))
+            ctx.violation("peak.raises" if isinstance(m, S.Raised) else "peak.not_integer", case, "integer", repr(m))
         elif m > peak:
             ctx.violation("peak.exceeds_true_peak", case, {"true_peak": peak}, m)
         elif m < r1:
@@ -61,8 +61,9 @@ def g_peak(ctx, ec, cfg):
             ctx.violation("peak.short_by_more_than_jerk", case, {"true_peak": peak, "jerk": j}, m)
         elif m != impl_max_rate(r, a, j, T):
             ctx.note_drift("max_rate_t3 differs from the impl-shaped MaxRateImpl (statement still satisfied)", case)
-        if len(events) < 20000 and (T <= 3 or (r + a + T) % 3 == 0):
-            events.append(S.ev_val("max", r, a, j, T, peak, 15))       # the stepped TRUE peak must satisfy the leap's bracket trivially
+        if len(events) < 30000 and (T <= 3 or (r + a + T) % 3 == 0):
+            events.append(dict(S.ev_val("max", r, a, j, T, peak, 15), _peak=peak))       # the stepped TRUE peak must satisfy the leap's bracket trivially
+            events.append(dict(S.ev_val("max", r, a, j, T, peak + 1, 15), _peak=peak))   # ... and one above it must not: PeakL equals the stepped peak exactly
         if ctx.evaluations % 4001 == 1:
             ctx.sample({"mode": "G", "T": T, "rate": r, "accel": a, "jerk": j, "stepped_peak": peak, "first": r1, "last": rT, "max_rate_t3": m})
     # second pass in the opposite order (long moves first, then shorter ones of the same command): the answer may not depend on what was asked before
@@ -70,15 +71,15 @@ def g_peak(ctx, ec, cfg):
     for (T, r, a, j, _p, _r1, _rT) in seen:
         longest[(r, a, j)] = max(T, longest.get((r, a, j), 0))
     for (T, r, a, j, peak, r1, rT) in reversed(seen):
-        cl = bracket_clause(ec.max_rate_t3(T, r, a, j), peak, r1, rT, j)
+        cl = bracket_clause(S.call(ec.max_rate_t3, T, r, a, j), peak, r1, rT, j)
         if cl:
             ctx.violation(cl, {"mode": "G", "T": T, "rate": r, "accel": a, "jerk": j, "order": "after longer moves of the same command",
                                "prelude_T": longest[(r, a, j)]},
                           {"true_peak": peak, "first_tick": r1, "last_tick": rT}, "differs when asked after a longer move")
             if ctx.enough(20):
                 break
-    vs = S.judge(ctx, "g_cross", events)
-    off = [(e, v) for e, v in zip(events, vs) if v != "ok"]
+    vs = S.judge(ctx, "g_cross", [{k: v for k, v in e.items() if k != "_peak"} for e in events])
+    off = [(e, v) for e, v in zip(events, vs) if v != ("ok" if vlib.from_limbs(e["val"]) == e["_peak"] else "peak.exceeds_true_peak")]
     if off:
         raise vlib.MachineryError("stepped true peak rejected by StepperLeap!PeakL (%s): %r" % (off[0][1], off[0][0]))
     ctx.stage("g_cross", kind="oracle cross-check", stepped_peaks_judged_by_leap=len(events))
@@ -106,7 +107,7 @@ def v_peak(ctx, ec, n):
             sh = rng.choice([-1, 1]) * rng.randint(1, 3 * S.M)
             if abs(r + sh) <= S.MM1 and S.in_domain(r + sh, a, j, T, lo=-8 * S.M, hi=8 * S.M):
                 r += sh
-        events.append(S.ev_val("max", r, a, j, T, ec.max_rate_t3(T, r, a, j), 15))
+        events.append(S.ev_val("max", r, a, j, T, S.call(ec.max_rate_t3, T, r, a, j), 15))
     vs = S.judge(ctx, "v", events)
     rej = 0
     for e, v in zip(events, vs):
@@ -129,12 +130,15 @@ def run(ctx):
     ctx.run_tlc("e1.bigint", "BigIntTest", "BigIntTest_%s.cfg" % ctx.tier)
     ctx.run_tlc("e1.stepper_t3", "StepperMC", "Stepper_small_t3.cfg", coverage=True)
     ctx.run_tlc("e1.leap", "StepperLeapMC", "StepperLeap_t3_quick.cfg" if q else "StepperLeap_thorough.cfg")
+    ctx.run_tlc("e1.leap_domain", "StepperLeapMC", "StepperLeap_domain.cfg")
     g_peak(ctx, ec, "Stepper_full_t3_%s.cfg" % ctx.tier)
     v_peak(ctx, ec, 4000 if q else 200000)
     ctx.exhaustive = True
     ctx.trusted += ["TLC 1.8", "BigInt.tla", "StepperLeap!PeakL (checked equal to the stepped peak on the small universe and on the full-scale vectors)",
                     "vlib TLA value parser", "harness limb encoding"]
-    ctx.assumptions += ["domain: every per-tick |rate| and |accel| <= 2^31-1", "T >= 1"]
+    ctx.assumptions += ["valid move: every per-tick |rate| and |accel| <= 2^31-1, T >= 1 - the full bracket is demanded there",
+                        "moves whose rate leaves the limit (by up to 16x) are judged by the statement's last sentence only: an answer <= 2^31-1 "
+                        "must mean the true peak is at most 2^31-1+|jerk|; raising or answering above the limit is accepted there"]
     return ctx.finish(
         rule="G: every tick state of the T3 machine stepped by TLC at modulus 2^31 carries the true peak, first and last |rate|; max_rate_t3 is judged by the "
              "bracket; V: random in-domain (T,rate,accel,jerk), half of them with the turning point aimed at the ends of the sampled window, judged by TLC "
@@ -148,8 +152,8 @@ def replay(rec):
     c = rec["case"]
     T, r, a, j = c["T"], c["rate"], c["accel"], c["jerk"]
     if c.get("prelude_T"):
-        ec.max_rate_t3(c["prelude_T"], r, a, j)          # the violation was observed after a longer move of the same command had been asked about
-    ev = S.ev_val("max", r, a, j, T, ec.max_rate_t3(T, r, a, j), 15)
+        S.call(ec.max_rate_t3, c["prelude_T"], r, a, j)          # the violation was observed after a longer move of the same command had been asked about
+    ev = S.ev_val("max", r, a, j, T, S.call(ec.max_rate_t3, T, r, a, j), 15)
     ctx = vlib.Ctx("C17", "quick", 0, LEVEL, fresh=False)
     v = S.judge(ctx, "replay", [ev])[0]
     return v in ("ok", "skip"), {"verdict": v, "returned": ev["raw"]}
